@@ -19,11 +19,13 @@ Oracle (independent of the model), written from the property text:
  (iv)  around every in-place operation of the history every *other* live
        instance is unchanged (objects shared by the caller's own doing masked).
 """
+import c02_masked as CM
+import c02_masked_tie as CT
 import heap_common as H
 
 PID = "C02"
-LEAN_TARGETS = ["SpecVerif.Props.C02"]
-AUDIT = [("SpecVerif.Props.C02", "SpecVerif.Props.C02")]
+LEAN_TARGETS = ["SpecVerif.Props.C02", "SpecVerif.Props.C02Masked"]
+AUDIT = [("SpecVerif.Props.C02", "SpecVerif.Props.C02"), ("SpecVerif.Props.C02Masked", "SpecVerif.Props.C02Masked")]
 DRIVER = "Drivers/Heap.lean"
 REQUIRED_THEOREMS = [
     "SpecVerif.Props.C02.deepcopy_disjoint",
@@ -32,6 +34,14 @@ REQUIRED_THEOREMS = [
     "SpecVerif.Props.C02.no_visible_change",
     "SpecVerif.Props.C02.result_disjoint",
     "SpecVerif.Props.C02.result_fresh",
+    # instances with descriptor-backed attributes (Model/C02Masked.lean)
+    "SpecVerif.Props.C02Masked.derive_disjoint",
+    "SpecVerif.Props.C02Masked.derive_fresh",
+    "SpecVerif.Props.C02Masked.derive_view_disjoint",
+    "SpecVerif.Props.C02Masked.derive_keeps_heap",
+    "SpecVerif.Props.C02Masked.read_writes_only_receiver",
+    "SpecVerif.Props.C02Masked.derive_disjoint_nodnc",
+    "SpecVerif.Props.C02Masked.derive_insulated",
 ]
 RULE = (
     "case = class table (see C01; 30% of the collection/nested attributes do_not_copy, 10% a do_not_copy=True nested "
@@ -40,7 +50,16 @@ RULE = (
     "of a list attribute), every copy-on-write helper and deepcopy with freshly built arguments and pure transforms, "
     "followed by in-place helpers / nested assignments / raw container mutations of results and receivers (45% of "
     "helper calls in place, 25% raw mutations); non-trivial = the line changed the world or raised; distinct = "
-    "distinct (table, pre-world, line) triples."
+    "distinct (table, pre-world, line) triples.  extra(): (a) classes with KeyedList/KeyedSet attributes; (b) masked sweep "
+    "(harness/c02_masked.py, real code + oracle): 6 value kinds x sizes 0-3 x 8 class variants (eager/lazy, spec sub, 2-level "
+    "sub, plain sub, frozen, do_not_copy on masked attributes declared on the class / on a subclass) x 12 kinds of __dict__ "
+    "entry (spec_property cached / not overridable / invalidated_by / returning own state / overridable / with setter, "
+    "Alias local / passthrough / fallback, property with setter, unannotated spec_property, functools.cached_property, "
+    "undeclared attribute) x materialised by constructor / assignment / helper / first access, before or after the "
+    "receiver was derived x generation 0-3 x holder (itself, attribute / list item / dict value of an outer instance) x "
+    "56 derivation routes; (c) masked tie (harness/c02_masked_tie.py): generated tables with 2-5 masked attributes and "
+    "histories of 7-15 operations (getattr, assignment, deletion, with_/reset_ in place or not, deepcopy) compared line by "
+    "line with SpecVerif.C02Masked through Drivers/C02Masked.lean and judged by the oracle of (b)."
 )
 ASSUMPTIONS = [
     "transforms and preparers return new objects, scalars or their argument (the quantifier's 'transforms that return "
@@ -48,6 +67,8 @@ ASSUMPTIONS = [
     "objects handed in by the caller, do_not_copy attributes and frozen nested instances may be shared "
     "(DESIGN.md section 10 item 11); update()/transform() without keywords return the receiver itself (item 1)",
     "bool values are not generated (Python identifies True with 1)",
+    "masked tie: getter functions come from a pool (new literal / self.<b> / list(self.<b>)); no invalidated_by, no "
+    "preparers, constructor keywords for plain attributes only (the masked sweep covers those on the real code)",
 ]
 OPEN_STATEMENTS = [
     "result_disjoint_Full (Props/C02.lean) is the statement WITHOUT the side conditions and is false in model and code "
@@ -84,11 +105,29 @@ def gen_cases(tier, rng):
         yield H.gen_case(rng, PROFILE)
 
 
-model_lines = H.model_lines
-real_lines = H.real_lines
-shrink = H.shrink_case
-nontrivial = H.nontrivial_keys
-tags = H.op_tags
+def _special(case):
+    """Cases of the `extra` sections (replayable through `oracle`), not histories of the heap grammar."""
+    return "masked" in case or "masked_tie" in case or "extra" in case
+
+
+def model_lines(case):
+    return [] if _special(case) else H.model_lines(case)
+
+
+def real_lines(case):
+    return [] if _special(case) else H.real_lines(case)
+
+
+def shrink(case, at=None):
+    return [] if _special(case) else H.shrink_case(case, at)
+
+
+def nontrivial(case, real):
+    return [] if _special(case) else H.nontrivial_keys(case, real)
+
+
+def tags(case, real):
+    return [] if _special(case) else H.op_tags(case, real)
 
 
 # ---------------------------------------------------------------------------
@@ -114,6 +153,12 @@ def _targeted_attrs(toks):
 
 
 def oracle(case):
+    if "masked" in case:  # a scenario of the masked-attribute sweep (harness/c02_masked.py)
+        return CM.run_scenario(case["masked"])[1]
+    if "masked_tie" in case:  # a history of the descriptor-layer tie (harness/c02_masked_tie.py)
+        return CT.oracle(case["masked_tie"])
+    if "extra" in case:
+        return []
     violations = []
     handed = {}  # ids of objects handed in by the caller so far (kept alive)
 
@@ -321,7 +366,7 @@ def _by_key_items(h):
     return [o for o in out if o is not None]
 
 
-def extra(tier, rng):
+def _extra_keyed(tier, rng):
     It, Holder, Outer = _keyed_ns()
     evaluations, violations, keys = 0, [], []
 
@@ -403,10 +448,52 @@ def extra(tier, rng):
     }
 
 
+def _extra_masked(tier, rng):
+    """Descriptor-backed attributes and unmanaged `__dict__` entries (harness/c02_masked.py): real code + oracle."""
+    evaluations, keys, violations, hist = CM.sweep(tier, rng)
+    return {
+        "evaluations": evaluations,
+        "nontrivial": keys,
+        "violations": violations[:50],
+        "disagreements": [],
+        "info": {"derivations_on_classes_with_masked_attributes": evaluations, "masked_scenario_status": hist},
+    }
+
+
+def _extra_masked_tie(tier, rng):
+    """Real descriptor layer vs `SpecVerif.C02Masked` through Drivers/C02Masked.lean (harness/c02_masked_tie.py)."""
+    import common
+
+    r = CT.run(tier, rng, common.run_driver)
+    return {
+        "evaluations": r["cases"],
+        "nontrivial": r["keys"],
+        "violations": r["violations"][:20],
+        "disagreements": r["disagreements"][:20],
+        "info": {
+            "masked_tie_cases": r["cases"],
+            "masked_tie_lines_compared": r["lines"],
+            "masked_tie_disagreeing_cases": len(r["disagreements"]),
+            "masked_tie_histogram": dict(sorted(r["tags"].items())),
+        },
+    }
+
+
+def extra(tier, rng):
+    out = {"evaluations": 0, "nontrivial": [], "violations": [], "disagreements": [], "info": {}}
+    for part in (_extra_keyed, _extra_masked, _extra_masked_tie):
+        r = part(tier, rng)
+        out["evaluations"] += r["evaluations"]
+        for k in ("nontrivial", "violations", "disagreements"):
+            out[k].extend(r[k])
+        out["info"].update(r["info"])
+    return out
+
+
 KNOWN_MATCHERS = {}
 
 MANIFEST_ENTRY = {
-    "level_text": "Lean 4 proof, over the heap model with object identities, that deepcopy (with memo, attribute- and class-level do_not_copy, __post_copy__) returns an object from which no pre-existing object is reachable except through do_not_copy attributes, which are carried by identity, and that an in-place write to an object a value cannot reach is invisible through that value (so mutating the copy or the original is never visible through the other); and that the result of every copy-on-write helper, the constructor and deepcopy is a new object from which only objects handed in as arguments or held by do_not_copy attributes are reachable among the pre-existing ones (for callbacks returning scalars or their argument); tied to /repo on every run by executing generated histories (aliasing inside the receiver, every helper, then in-place mutations of either side) on the real spec_classes and on the model and comparing contents and the alias pattern of all live objects after every step.",
+    "level_text": "Lean 4 proof, over the heap model with object identities, that deepcopy (with memo, attribute- and class-level do_not_copy, __post_copy__) returns an object from which no pre-existing object is reachable except through do_not_copy attributes, which are carried by identity, and that an in-place write to an object a value cannot reach is invisible through that value (so mutating the copy or the original is never visible through the other); and that the result of every copy-on-write helper, the constructor and deepcopy is a new object from which only objects handed in as arguments or held by do_not_copy attributes are reachable among the pre-existing ones (for callbacks returning scalars or their argument); tied to /repo on every run by executing generated histories (aliasing inside the receiver, every helper, then in-place mutations of either side) on the real spec_classes and on the model and comparing contents and the alias pattern of all live objects after every step. Second Lean model (SpecVerif.C02Masked) for instances whose __dict__ also holds the cache/override of a spec_property, the local override of an Alias or the backing field of a property: the descriptor protocols (get with cache fill, set, delete) and mutate_attr / with_<a> / reset_<a> through them; proved for every table, descriptor assignment and heap that the result of deepcopy / with_<a> / reset_<a> and everything it shows through getattr afterwards reaches only do_not_copy values and the call's argument among the pre-existing objects, that deriving writes no pre-existing object and that getattr writes only its own receiver; tied to /repo per run through Drivers/C02Masked.lean.",
     "level_note": "Trusted: Lean kernel; axioms propext/Classical.choice/Quot.sound only; the hand-written heap model and the correspondence harness; callbacks return new objects, scalars or their argument. Sharing of caller-provided arguments, do_not_copy attributes and frozen nested instances is allowed by the property. The theorems are about the model; the per-run correspondence (alias pattern) ties them to the code.",
     "technique": "Lean 4 reachability/provenance theorems over a hand-written heap model; differential correspondence of alias patterns against the real helpers",
 }
